@@ -23,7 +23,17 @@
      stored in its slot, whose old function is dropped: [own_put]) it must own exactly the
      harness's handles (BALANCE), and the table it predicts - every stored node (the
      garbage of a failed run included) with its level, its children up to renaming and its
-     REFERENCE COUNT - must be the table the real manager shows after the operation. *)
+     REFERENCE COUNT - must be the table the real manager shows after the operation.
+   - C14y (other rule sets): kind=bcdd / zbdd (cap < 100) and kind=mtbdd (cap < 100 or cap >= 4096: no
+     background collection; header field tcap = capacity of the terminal store): the extracted bounded
+     models of coq/Mgr/OomBcdd.v, OomZbdd.v, OomMtbdd.v (no cache, sequential recursor) are run on the
+     snapshot before each operation they cover - bcdd: NOT / binary operator / ITE / VAR / NVAR; zbdd: UNION /
+     INTSEC / DIFF / NOT / binary operator / ITE / SINGLETON / MAKENODE (= singleton, then make_node); mtbdd:
+     ADD .. MAX / ITE / CONSTN / VAR / RESTRICT (= the harness's cube construction 1, var, mul, 1 - x step by
+     step, then restrict; every step through the bounded model, two budgets) - and must predict
+     out-of-memory or not, the stored nodes (mtbdd: and stored terminals) afterwards - after a failure the
+     garbage, as for bdd - and the value table of the result.  The hypotheses of the theorems
+     ([bcok_b]; [zbdd_ok_b] and [zchain_ok_b]; [mt_ok_b]) must hold on every such snapshot. *)
 open Conv
 
 (* ---- trace parsing (self-contained copies of the few helpers of ocaml/dd_types.ml that this
@@ -43,7 +53,15 @@ let parse_edge (t : string) : Model.edge =
     else Model.RT (n_of_string num) in
   { Model.eref = r; Model.etag = tag }
 
-type psnap = { snap : Model.snap; l2v : int array; handles : (int * Model.edge) list; listed : int }
+type psnap = { snap : Model.snap; l2v : int array; handles : (int * Model.edge) list; listed : int; tlisted : int }
+
+(* MTBDD<I64> terminal values as the extracted [i64v] *)
+let i64v_of_string (s : string) : Model.i64v =
+  match s with
+  | "nan" -> Model.INaN
+  | "+inf" -> Model.IPlusInf
+  | "-inf" -> Model.IMinusInf
+  | _ -> Model.INum (mz_of_string s)
 
 let split_bar (s : string) : string list =
   let res = ref [] and cur = Buffer.create 64 in
@@ -57,12 +75,23 @@ let split_bar (s : string) : string list =
   res := Buffer.contents cur :: !res;
   List.rev !res
 
-(* BDD snapshots only (terminal value codes: False = 0, True = 1) *)
-let parse_snapshot (body : string) : psnap =
+(* terminal value codes: bdd False = 0, True = 1; bcdd: the single terminal, code 1; zbdd Empty = 0, Base = 1;
+   mtbdd: the model's own coding [Model.code] of the value *)
+let parse_snapshot (kname : string) (body : string) : psnap =
   let nodes = ref Model.PositiveMap.empty in
   let terms = ref [] and handles = ref [] in
   let v2l = ref [||] and l2v = ref [||] in
-  let nn = ref 0 in
+  let nn = ref 0 and nt = ref 0 in
+  let tcode v =
+    match kname, v with
+    | "bdd", "False" -> n_of_int 0 | "bdd", "True" -> n_of_int 1
+    | "bcdd", _ -> n_of_int 1
+    | "zbdd", "Empty" -> n_of_int 0 | "zbdd", "Base" -> n_of_int 1
+    | "mtbdd", _ -> Model.code (i64v_of_string v)
+    | _, _ -> failwith ("terminal " ^ v) in
+  let kind =
+    match kname with
+    | "bcdd" -> Model.KBcdd | "zbdd" -> Model.KZbdd | "mtbdd" -> Model.KMtbdd | _ -> Model.KBdd in
   List.iter
     (fun piece ->
       match split_ws piece with
@@ -74,38 +103,40 @@ let parse_snapshot (body : string) : psnap =
                    Model.nstored = nat (int_of_string stored); Model.nrc = n_of_string rc } in
         nodes := Model.PositiveMap.add (pos_of_z (Z.succ (Z.of_string id))) nd !nodes
       | [ "T"; id; v ] ->
-        terms := (n_of_string id, n_of_int (match v with "False" -> 0 | "True" -> 1 | _ -> failwith ("terminal " ^ v))) :: !terms
+        incr nt;
+        terms := (n_of_string id, tcode v) :: !terms
       | [ "H"; slot; e ] -> handles := (int_of_string slot, parse_edge e) :: !handles
       | _ -> ())
     (split_bar body);
   let hs = List.rev !handles in
   let snap =
-    { Model.s_kind = Model.KBdd; Model.s_nodes = !nodes; Model.s_terms = List.rev !terms;
+    { Model.s_kind = kind; Model.s_nodes = !nodes; Model.s_terms = List.rev !terms;
       Model.s_v2l = List.map nat (Array.to_list !v2l); Model.s_l2v = List.map nat (Array.to_list !l2v);
       Model.s_handles = List.map (fun (s, e) -> (n_of_int s, e)) hs } in
-  { snap; l2v = !l2v; handles = hs; listed = !nn }
+  { snap; l2v = !l2v; handles = hs; listed = !nn; tlisted = !nt }
 
-type vt = int array          (* index = assignment (bit v = variable v), value = code *)
+type vt = string array       (* index = assignment (bit v = variable v), value = code *)
 
 (* the extracted interpreter [sem_edge] on every assignment *)
 let value_table (ps : psnap) (e : Model.edge) : vt option =
   let n = Array.length ps.l2v in
   let size = 1 lsl n in
-  let res = Array.make size (-1) in
+  let res = Array.make size "?" in
   let ok = ref true in
   for a = 0 to size - 1 do
     let c (lvl : Model.nat) : Model.nat =
       let l = int_of_nat lvl in
       if l < n && (a lsr ps.l2v.(l)) land 1 = 1 then Model.O else Model.S Model.O in
     match Model.sem_edge ps.snap e c with
-    | Some v -> res.(a) <- int_of_n v
+    | Some v -> res.(a) <- string_of_n v
     | None -> ok := false
   done;
   if !ok then Some res else None
 
 let show_vt (t : vt) =
-  if Array.length t <= 64 then String.concat "" (List.map string_of_int (Array.to_list t))
-  else Digest.to_hex (Digest.string (String.concat "," (List.map string_of_int (Array.to_list t))))
+  let sep = if Array.exists (fun x -> String.length x > 1) t then "," else "" in
+  if Array.length t <= 64 then String.concat sep (Array.to_list t)
+  else Digest.to_hex (Digest.string (String.concat "," (Array.to_list t)))
 
 let bop_of = function
   | "AND" -> Some Model.OAnd | "OR" -> Some Model.OOr | "XOR" -> Some Model.OXor
@@ -141,7 +172,72 @@ let profile (tbl : (int * int list, int) Hashtbl.t) (s : Model.snap) : (int * st
 let show_profile l = String.concat " " (List.map (fun (k, rc) -> Printf.sprintf "%d:%s" k rc) l)
 
 type pred = { pcode : int; pcount : int; pfull : int; ptable : vt option; pwhat : string; pdst : int; pstep : int;
-              pown : (Model.snap * int) option }
+              pown : (Model.snap * int) option;
+              pterms : int;        (* mtbdd: stored terminals afterwards; -1 = not compared *)
+              pexact : bool }      (* the garbage of a failed run is predicted also with several threads
+                                      (mtbdd: the algorithms have no parallel recursor) *)
+
+(* ---- C14y: the bounded models of the other rule sets ------------------------------------------ *)
+let gcode r = int_of_nat (Model.gres_code r)
+let mop_of = function
+  | "ADD" -> Some Model.MAdd | "SUB" -> Some Model.MSub | "MUL" -> Some Model.MMul
+  | "DIV" -> Some Model.MDiv | "MIN" -> Some Model.MMin | "MAX" -> Some Model.MMax | _ -> None
+let zop_of = function
+  | "UNION" -> Some Model.ZUnion | "INTSEC" -> Some Model.ZIntsec | "DIFF" -> Some Model.ZDiff | _ -> None
+let untagged (r : Model.ref) : Model.edge = { Model.eref = r; Model.etag = false }
+
+(* outcome of a model run: (code, table afterwards, result edge); code 0 = result, 1 = out of memory
+   (table at the point of failure), 2 = stuck *)
+type outcome = int * Model.snap option * Model.edge option
+(* (only the accessors [gres_code] / [gres_snap] / [gres_val] are used: the constructor names of the
+   extracted result type depend on the extraction order) *)
+let of_gres_ref r : outcome =
+  (gcode r, Model.gres_snap r, (match Model.gres_val r with Some (x : Model.ref) -> Some (untagged x) | None -> None))
+let of_gres_edge r : outcome =
+  (gcode r, Model.gres_snap r, (match Model.gres_val r with Some (x : Model.edge) -> Some x | None -> None))
+(* one insertion: outer None = stuck, inner None = out of memory with the manager untouched *)
+let of_ins (s : Model.snap) (mk : 'a -> Model.edge) (r : (Model.snap * 'a) option option) : outcome =
+  match r with
+  | None -> (2, None, None)
+  | Some None -> (1, Some s, None)
+  | Some (Some (s', x)) -> (0, Some s', Some (mk x))
+
+(* mtbdd RESTRICT as the harness performs it (h_dd.rs, mod mt): cube = product of literals built from
+   constant(1), var(v) for v = n-1 .. 0 (always), x * acc resp. (1 - x) * acc; then restrict.  Every
+   step through the bounded model; the first failing step is the outcome (what the earlier steps
+   created stays stored). *)
+let mt_restrict_composite (ncap : Model.nat) (ntcap : Model.nat) (s : Model.snap) (f : Model.ref) (n : int)
+    (pos : int) (neg : int) : outcome =
+  let exception Out of outcome in
+  let step r : Model.snap * Model.ref =
+    match gcode r, Model.gres_snap r, Model.gres_val r with
+    | 0, Some s', Some (x : Model.ref) -> (s', x)
+    | 1, Some s', _ -> raise (Out (1, Some s', None))
+    | _ -> raise (Out (2, None, None)) in
+  try
+    let s1, one =
+      match Model.mt_const_cap ntcap s Model.i64_one with
+      | Some (s', r) -> (s', r)
+      | None -> raise (Out (1, Some s, None)) in
+    let st = ref s1 and acc = ref one in
+    for v = n - 1 downto 0 do
+      let s2, x =
+        match Model.mt_var_cap ncap ntcap !st (nat v) with
+        | Some r -> step r
+        | None -> raise (Out (2, None, None)) in
+      st := s2;
+      if (pos lsr v) land 1 = 1 then begin
+        let s3, a = step (Model.mbin_nc ncap ntcap !st Model.MMul x !acc) in
+        st := s3; acc := a
+      end else if (neg lsr v) land 1 = 1 then begin
+        let s3, nx = step (Model.mbin_nc ncap ntcap !st Model.MSub one x) in
+        let s4, a = step (Model.mbin_nc ncap ntcap s3 Model.MMul nx !acc) in
+        st := s4; acc := a
+      end
+    done;
+    of_gres_ref (Model.mrestrict_nc ncap !st f !acc)
+  with Out o -> o
+
 
 let () =
   iter_cases stdin (fun c ->
@@ -149,7 +245,11 @@ let () =
       let cap = param_int c "cap" (1 lsl 16) in
       let threads = param_int c "threads" 1 in
       let retry_at = param_int c "retry_at" (-1) in
-      let predictable = kname = "bdd" && cap < 100 in
+      let tcap = param_int c "tcap" (1 lsl 12) in
+      (* below 100 node slots the background collector is disabled; a large store never reaches its threshold *)
+      let predictable =
+        ((kname = "bdd" || kname = "bcdd" || kname = "zbdd") && cap < 100) || (kname = "mtbdd" && (cap < 100 || cap >= 4096)) in
+      let ntcap = nat tcap in
       let failed = ref false in
       let fail step kind msg =
         stat "bad_C14" 1;
@@ -170,13 +270,13 @@ let () =
             | [ "SNAP" ] when not predictable -> stat "snapshots" 1
             | [ "SNAP" ] ->
               (try
-                 let ps = parse_snapshot res in
+                 let ps = parse_snapshot kname res in
                  stat "snapshots" 1;
                  (match !pending with
                   | Some p ->
                     pending := None;
                     stat "predictions" 1;
-                    if p.pcode = 1 && threads > 1 then (
+                    if p.pcode = 1 && threads > 1 && not p.pexact then (
                       (* which branch fails first depends on the interleaving; the store is full *)
                       if ps.listed <> p.pfull then
                         fail p.pstep "prop"
@@ -186,6 +286,10 @@ let () =
                       fail p.pstep "prop"
                         (Printf.sprintf "%s at capacity %d: %d nodes stored afterwards, the bounded model says %d (%s)"
                            p.pwhat cap ps.listed p.pcount (if p.pcode = 1 then "after the out-of-memory error" else "after the result"))
+                    else if p.pterms >= 0 && ps.tlisted <> p.pterms then
+                      fail p.pstep "prop"
+                        (Printf.sprintf "%s at capacity %d / terminal capacity %d: %d terminals stored afterwards, the bounded model says %d (%s)"
+                           p.pwhat cap tcap ps.tlisted p.pterms (if p.pcode = 1 then "after the out-of-memory error" else "after the result"))
                     else if p.pcode = 0 then (
                       match p.ptable, List.assoc_opt p.pdst ps.handles with
                       | Some exp, Some e ->
@@ -212,9 +316,15 @@ let () =
                      | _ -> ())
                   | None -> ());
                  if predictable then (
-                   stat "chk_bdd_ok" 1;
-                   if not (Model.bdd_ok_b ps.snap) then
-                     fail i "prop" "bdd_ok_b false on a snapshot (not a well-formed BDD table: hypothesis of the C14 theorems / state after an error)");
+                   stat ("chk_" ^ kname ^ "_ok") 1;
+                   let ok, what =
+                     match kname with
+                     | "bcdd" -> (Model.bcok_b ps.snap, "bcok_b")
+                     | "zbdd" -> (Model.zbdd_ok_b ps.snap && Model.zchain_ok_b ps.snap, "zbdd_ok_b / zchain_ok_b")
+                     | "mtbdd" -> (Model.mt_ok_b ps.snap, "mt_ok_b")
+                     | _ -> (Model.bdd_ok_b ps.snap, "bdd_ok_b") in
+                   if not ok then
+                     fail i "prop" (what ^ " false on a snapshot (not a well-formed table of its kind: hypothesis of the C14 theorems / state after an error)"));
                  prev := Some ps
                with Failure m -> fail i "corr" ("driver: " ^ m))
             | _ ->
@@ -232,7 +342,76 @@ let () =
                 | None -> ()
                 | Some ps ->
                   let href t = match List.assoc_opt (slot_of t) ps.handles with Some e -> Some e.Model.eref | None -> None in
+                  let hedge t = List.assoc_opt (slot_of t) ps.handles in
+                  let s0 = ps.snap in
+                  (* C14y: the other rule sets *)
+                  let run_other : (int * outcome) option =
+                    match kname, toks with
+                    | "bcdd", [ ("NOT" | "NOTO"); dst; a ] ->
+                      (match hedge a with Some f -> Some (slot_of dst, of_gres_edge (Model.cnot_nc s0 f)) | None -> None)
+                    | "bcdd", [ op; dst; a; b ] when bop_of op <> None ->
+                      (match hedge a, hedge b, bop_of op with
+                       | Some f, Some g, Some o -> Some (slot_of dst, of_gres_edge (Model.cop_nc ncap false s0 o f g))
+                       | _ -> None)
+                    | "bcdd", [ "ITE"; dst; a; b; cc ] ->
+                      (match hedge a, hedge b, hedge cc with
+                       | Some f, Some g, Some h -> Some (slot_of dst, of_gres_edge (Model.cite_nc ncap false s0 f g h))
+                       | _ -> None)
+                    | "bcdd", [ (("VAR" | "NVAR") as w); dst; v ] ->
+                      Some (slot_of dst, of_ins s0 (fun e -> e) (Model.cmk_var_cap ncap s0 (nat (int_of_string v)) (w = "NVAR")))
+                    | "zbdd", [ op; dst; a; b ] when zop_of op <> None ->
+                      (match href a, href b, zop_of op with
+                       | Some f, Some g, Some o -> Some (slot_of dst, of_gres_ref (Model.zset_nc ncap false s0 o f g))
+                       | _ -> None)
+                    | "zbdd", [ ("NOT" | "NOTO"); dst; a ] ->
+                      (match href a with Some f -> Some (slot_of dst, of_gres_ref (Model.znot_nc ncap false s0 f)) | None -> None)
+                    | "zbdd", [ op; dst; a; b ] when bop_of op <> None ->
+                      (match href a, href b, bop_of op with
+                       | Some f, Some g, Some o -> Some (slot_of dst, of_gres_ref (Model.zop_nc ncap false s0 o f g))
+                       | _ -> None)
+                    | "zbdd", [ "ITE"; dst; a; b; cc ] ->
+                      (match href a, href b, href cc with
+                       | Some f, Some g, Some h -> Some (slot_of dst, of_gres_ref (Model.zite_nc ncap false s0 f g h))
+                       | _ -> None)
+                    | "zbdd", [ "SINGLETON"; dst; v ] ->
+                      Some (slot_of dst, of_ins s0 untagged (Model.zsingleton_cap ncap s0 (nat (int_of_string v))))
+                    | "zbdd", [ "MAKENODE"; dst; v; a; b ] ->
+                      (* singleton(var)?, then make_node(var, hi, lo) *)
+                      (match href a, href b with
+                       | Some hi, Some lo ->
+                         (match Model.zsingleton_cap ncap s0 (nat (int_of_string v)) with
+                          | None -> Some (slot_of dst, (2, None, None))
+                          | Some None -> Some (slot_of dst, (1, Some s0, None))
+                          | Some (Some (s1, var)) ->
+                            (match Model.zmake_node_cap ncap s1 var hi lo with
+                             | None -> Some (slot_of dst, (2, None, None))
+                             | Some None -> Some (slot_of dst, (1, Some s1, None))
+                             | Some (Some (s2, r)) -> Some (slot_of dst, (0, Some s2, Some (untagged r)))))
+                       | _ -> None)
+                    | "mtbdd", [ op; dst; a; b ] when mop_of op <> None ->
+                      (match href a, href b, mop_of op with
+                       | Some f, Some g, Some o -> Some (slot_of dst, of_gres_ref (Model.mbin_nc ncap ntcap s0 o f g))
+                       | _ -> None)
+                    | "mtbdd", [ "ITE"; dst; a; b; cc ] ->
+                      (match href a, href b, href cc with
+                       | Some f, Some g, Some h -> Some (slot_of dst, of_gres_ref (Model.mite_nc ncap s0 f g h))
+                       | _ -> None)
+                    | "mtbdd", [ "CONSTN"; dst; v ] ->
+                      Some (slot_of dst, of_ins s0 untagged (Some (Model.mt_const_cap ntcap s0 (i64v_of_string v))))
+                    | "mtbdd", [ "VAR"; dst; v ] ->
+                      (match Model.mt_var_cap ncap ntcap s0 (nat (int_of_string v)) with
+                       | Some r -> Some (slot_of dst, of_gres_ref r)
+                       | None -> Some (slot_of dst, (2, None, None)))
+                    | "mtbdd", [ "RESTRICT"; dst; a; pos; neg ] ->
+                      (match href a with
+                       | Some f ->
+                         Some (slot_of dst, mt_restrict_composite ncap ntcap s0 f (Array.length ps.l2v)
+                                              (int_of_string pos) (int_of_string neg))
+                       | None -> None)
+                    | _ -> None in
                   let run =
+                    if kname <> "bdd" then (match run_other with Some (d, o) -> Some (d, `O o) | None -> None)
+                    else
                     match toks with
                     | [ ("NOT" | "NOTO"); dst; a ] ->
                       (match href a with Some f -> Some (slot_of dst, `R (Model.not_nc ncap false ps.snap f)) | None -> None)
@@ -252,17 +431,21 @@ let () =
                   | Some (dst, r) ->
                     let code, snap', rref =
                       match r with
-                      | `R r -> (int_of_nat (Model.res_code r), Model.res_snap r, Model.res_ref r)
+                      | `R r -> (int_of_nat (Model.res_code r), Model.res_snap r,
+                                 (match Model.res_ref r with Some rr -> Some (untagged rr) | None -> None))
                       | `V None -> (2, None, None)
                       | `V (Some None) -> (1, Some ps.snap, None)
-                      | `V (Some (Some (s', rr))) -> (0, Some s', Some rr) in
+                      | `V (Some (Some (s', rr))) -> (0, Some s', Some (untagged rr))
+                      | `O o -> o in
+                    if kname <> "bdd" then stat ("predictions_" ^ kname) 1;
                     if code = 2 then fail i "corr" (Printf.sprintf "%s: the bounded model is stuck (model hypotheses violated)" ops)
                     else (
                       stat (if code = 1 then "model_oom" else "model_ok") 1;
                       if (code = 1) <> is_oom then
                         fail i "prop"
-                          (Printf.sprintf "%s at capacity %d with %d stored nodes: implementation %s, the bounded model %s"
+                          (Printf.sprintf "%s at capacity %d with %d stored nodes%s: implementation %s, the bounded model %s"
                              ops cap ps.listed
+                             (if kname = "mtbdd" then Printf.sprintf " (terminal capacity %d, %d stored terminals)" tcap ps.tlisted else "")
                              (if is_oom then "reports out-of-memory" else "returns a result")
                              (if code = 1 then "runs out of memory" else "succeeds"))
                       else
@@ -270,13 +453,19 @@ let () =
                         | None -> ()
                         | Some s' ->
                           let cnt = int_of_nat (Model.node_count s') in
-                          if code = 1 && cnt > ps.listed then stat "model_oom_with_garbage" 1;
+                          let tcnt = if kname = "mtbdd" then int_of_nat (Model.term_count s') else -1 in
+                          if code = 1 && (cnt > ps.listed || tcnt > ps.tlisted) then (
+                            stat "model_oom_with_garbage" 1;
+                            if kname <> "bdd" then stat ("model_oom_with_garbage_" ^ kname) 1);
+                          if code = 1 && kname <> "bdd" then stat ("model_oom_" ^ kname) 1;
+                          if code = 1 && kname = "mtbdd" && cnt < cap then stat "model_oom_terminal_store" 1;
                           let tab =
                             match rref with
-                            | Some rr -> value_table { ps with snap = s' } { Model.eref = rr; Model.etag = false }
+                            | Some rr -> value_table { ps with snap = s' } rr
                             | None -> None in
                           let own =
-                            if code = 1 && threads > 1 then None      (* the garbage depends on the interleaving *)
+                            if kname <> "bdd" then None
+                            else if code = 1 && threads > 1 then None      (* the garbage depends on the interleaving *)
                             else
                               let o =
                                 match toks with
@@ -315,7 +504,7 @@ let () =
                                     | Some s2, Some t2 -> Some (s2, int_of_nat t2)
                                     | _ -> None in
                           pending := Some { pcode = code; pcount = cnt; pfull = max cap ps.listed; ptable = tab; pwhat = ops;
-                                            pdst = dst; pstep = i; pown = own })))
+                                            pdst = dst; pstep = i; pown = own; pterms = tcnt; pexact = (kname = "mtbdd") })))
         c.lines;
       stat "cases" 1;
       stat "steps" (List.length c.lines);
